@@ -22,6 +22,13 @@ type messageSetReader struct {
 	// This is used to detect truncation of the response.
 	lengthRemain int
 
+	// Offset following the last record batch (v2) whose records were all
+	// consumed from the response, or zero if there was none.  Log compaction
+	// can remove the records at the end of a batch, or all of them, in which
+	// case the offsets of the records that were read do not reach the end of
+	// the batch; this is where reading has to resume.
+	consumedEnd int64
+
 	decompressed *bytes.Buffer
 }
 
@@ -128,6 +135,13 @@ func (r *messageSetReader) readMessage(min int64, key readBytesFunc, val readByt
 	}
 	if err = r.readHeader(); err != nil {
 		return
+	}
+	// Skip the empty record batches: log compaction retains a batch whose
+	// records were all removed, such a header is followed by the next batch.
+	for r.count == 0 {
+		if err = r.readHeader(); err != nil {
+			return
+		}
 	}
 	switch r.header.magic {
 	case 0, 1:
@@ -334,6 +348,10 @@ func (r *messageSetReader) readMessageV2(_ int64, key readBytesFunc, val readByt
 	}
 	lastOffset = r.header.firstOffset + int64(r.header.v2.lastOffsetDelta)
 	r.lengthRemain -= int(length) + lengthOfLength
+	if r.count == 1 {
+		// last record of the batch
+		r.consumedEnd = lastOffset + 1
+	}
 	r.markRead()
 	return
 }
@@ -482,6 +500,10 @@ func (r *messageSetReader) readHeader() (err error) {
 		r.count = int(r.header.v2.count)
 		// Subtracts the header bytes from the length
 		r.lengthRemain = int(r.header.length) - 49
+		if r.count == 0 {
+			// empty batch: there is no record to learn the last offset from.
+			r.consumedEnd = r.header.firstOffset + int64(r.header.v2.lastOffsetDelta) + 1
+		}
 		if r.debug {
 			r.log("Read v2 header with count=%d offset=%d len=%d magic=%d attributes=%d", r.count, r.header.firstOffset, r.header.length, r.header.magic, r.header.v2.attributes)
 		}
